@@ -13,7 +13,7 @@ for pid, c in CLAIMED.items():
             continue
         # a guard against vacuity, not a fingerprint of the tree: counts of paths and transitions move a lot
         # under behaviour-preserving restructuring (a dispatcher moved into a helper merges paths)
-        floors[rid] = max(1, n // 20)
+        floors[rid] = max(1, n // 50)
     out[pid] = {'explanation': c['technique'] + '. ' + c['text'], 'floors': floors}
 json.dump(out, open('/verif/catsa/expect.json', 'w'), indent=1, sort_keys=True)
 print('floors for', len(out), 'properties')
